@@ -69,6 +69,15 @@ func Props() []string {
 	return out
 }
 
+var children = map[string]func([]byte) []byte{}
+
+// RegisterChild registers a handler that a world runs in a separate worker
+// process (worker subcommand "child": stdin -> handler -> stdout).
+func RegisterChild(prop string, f func([]byte) []byte) { children[prop] = f }
+
+// Child returns the child handler of a property.
+func Child(prop string) func([]byte) []byte { return children[prop] }
+
 // BeginRun resets per-run global state of the simulator seams. It must be
 // the first thing a world does inside Run.
 func BeginRun(t *rt.Tape) uint64 {
